@@ -4,7 +4,7 @@
 From Coq Require Import ZArith List Bool.
 From ZV.Gen Require Gen_Tables.
 From ZV.Mem Require Import CompressBound CompressBoundProofs CompressCalls CompressCallsProofs CompressSplit CompressSplitProofs CompressCallsKb CompressMtKb.
-From ZV.Codec Require Import FrameInspect FrameInspectProofs FrameInspectRobust.
+From ZV.Codec Require Import FrameInspect FrameInspectProofs FrameInspectRobust LegacyInspect LegacyInspectProofs.
 Import ListNotations.
 Local Open Scope Z_scope.
 
@@ -463,3 +463,50 @@ Theorem mt_job_weak_contract_witness :
   /\ mt_job_worst 131072 6 true true true 300000 = 6 + 300000 + 3 * 3 + 4.
 Proof. exact mt_job_weak_costs_more. Qed.
 Print Assumptions mt_job_weak_contract_witness.
+
+(* ======================= round 3: the LEGACY side of the bound (coq/Codec/LegacyInspect.v) ======================= *)
+
+(* for EVERY byte string, every version 5..7 (any integer: the model treats everything that is not 5 or 6 like v0.7),
+   every block decoder (regen = what each compressed block regenerates, or an error) and every verdict of the header
+   check: when the single-call legacy frame decoder (code after 39f3df0) produces d bytes, the legacy frame walk of
+   ZSTD_decompressBound / ZSTD_findFrameCompressedSize answers too, its bound is at least d and the size it reports
+   lies inside the source *)
+Theorem legacy_decompress_bound_safe : forall ver regen hdr_ok src d,
+  legacy_decode true ver regen hdr_ok src = Some d ->
+  exists cs b, legacy_find ver src = Some (cs, b) /\ d <= b /\ cs <= len src.
+Proof. exact legacy_bound_safe_lemma. Qed.
+Print Assumptions legacy_decompress_bound_safe.
+
+(* on arbitrary bytes the legacy walk never reports a size outside the source nor a negative bound *)
+Theorem legacy_frame_size_within_source : forall ver src cs b, bytes_ok src ->
+  legacy_find ver src = Some (cs, b) -> 3 <= cs <= len src /\ 0 <= b.
+Proof. exact legacy_find_within_lemma. Qed.
+Print Assumptions legacy_frame_size_within_source.
+
+(* closed witness of the finding C06-legacy-bound-oversize-compressed-block (22-byte v0.7 frame, one compressed block that
+   regenerates 131075 bytes): walk = (22, 131072); decoder before 39f3df0: 131075 bytes; after: refused; a block of exactly
+   128 KiB still decodes *)
+Theorem legacy_bound_finding_witness :
+  legacy_find 7 lg_finding_frame = Some (22, 131072) /\
+  legacy_decode false 7 (fun _ _ => Some 131075) true lg_finding_frame = Some 131075 /\
+  legacy_decode true 7 (fun _ _ => Some 131075) true lg_finding_frame = None /\
+  legacy_decode true 7 (fun _ _ => Some 131072) true lg_finding_frame = Some 131072.
+Proof. exact legacy_finding_witness. Qed.
+Print Assumptions legacy_bound_finding_witness.
+
+(* ... hence theorem legacy_decompress_bound_safe is false for the decoder without the test of 39f3df0 *)
+Theorem legacy_bound_unsafe_before_39f3df0 :
+  exists src d cs b, legacy_decode false 7 (fun _ _ => Some 131075) true src = Some d /\
+                     legacy_find 7 src = Some (cs, b) /\ b < d.
+Proof. exact legacy_bound_unsafe_before_repair. Qed.
+Print Assumptions legacy_bound_unsafe_before_39f3df0.
+
+(* v0.7 (the only legacy version whose walk and decoder both end at bt_end): when the single-call decoder accepts the
+   bytes, ZSTD_findFrameCompressedSize reports exactly their number - "the frame compressed size equals the bytes the
+   decoder consumes" on the legacy side (v0.5 / v0.6 end a frame at any block whose cBlockSize is 0: there only
+   cs <= |src| holds, theorem legacy_decompress_bound_safe) *)
+Theorem legacy_v07_compressed_size_exact : forall regen hdr_ok src d, bytes_ok src ->
+  legacy_decode true 7 regen hdr_ok src = Some d ->
+  exists b, legacy_find 7 src = Some (len src, b) /\ d <= b.
+Proof. exact legacy7_compressed_size_exact_lemma. Qed.
+Print Assumptions legacy_v07_compressed_size_exact.
